@@ -8,6 +8,9 @@ CONSTANTS
   PATTERN = FALSE
   OM0 = 5
   OMSTEP <- Neg2
+  OMSEQ <- NoSeq
+  VSHIFT = 0
+  MAXFIX = FALSE
   EMITSTEPS = FALSE
 INVARIANT NoBad
 INVARIANT ShapeOK
